@@ -16,7 +16,33 @@ func init() {
 // c12Rows draws rows of arbitrary bytes: verifN() = 10*rows + maxlen (+100: all 256 byte values except \n).
 var c12ASCII bool // every byte of the drawn rows is below 0x80
 
+// c12LongRows (verifN() >= 1000): rows longer than any fixed small buffer or abbreviation limit -- a notation prefix
+// (none, a root bullet, an indented bullet, a too deeply indented bullet, a heading), a long run of one unit (ASCII,
+// two-byte, three-byte characters, invalid bytes, or a mixture: 30 or 100 units, so byte length and rune count are
+// far apart) and an arbitrary byte at the end; alone or after a well-formed root and child.
+func c12LongRows() (rows []string, allBlank bool) {
+	c12ASCII = false
+	unit := []string{"a", "\u00e9", "\u8a9e", "\xff", "\u8a9e\xff", " "}[verifChoose("unit", 0, 5)]
+	m := 30
+	if verifFlag("hundred") {
+		m = 100
+	}
+	prefix := []string{"", "- ", "  - ", "      - ", "# ", "\t- "}[verifChoose("prefix", 0, 5)]
+	tail := verifBytes("tail", 1)
+	verifAssume(tail[0] != '\n')
+	row := prefix + strings.Repeat(unit, m) + tail
+	if verifFlag("afterRoot") {
+		rows = []string{"- r", "  - c", row}
+	} else {
+		rows = []string{row}
+	}
+	return rows, false
+}
+
 func c12Rows() (rows []string, allBlank bool) {
+	if verifN() >= 1000 {
+		return c12LongRows()
+	}
 	c12ASCII = true
 	nrows := (verifN() / 10) % 10
 	maxlen := verifN() % 10
